@@ -764,7 +764,7 @@ func init() {
 			def := def
 			us = append(us, core.Unit{Name: "concurrent-" + def.Name, Weight: 15, Run: func(c *core.Ctx) {
 				for i := 0; i < c.Pick(2, 12); i++ {
-					c.Do(&core.Case{Oracle: "decode-concurrent", Target: "nasMessage." + def.Name, S: []string{def.Name}, I: []int64{int64(c.R.Uint64() >> 1), 8, int64(c.Pick(400, 1500))}})
+					c.Do(&core.Case{Oracle: "decode-concurrent", Target: "nasMessage." + def.Name, S: []string{def.Name}, I: []int64{int64(c.R.Uint64() >> 1), 16, int64(c.Pick(2500, 8000))}})
 				}
 			}})
 			us = append(us, core.Unit{Name: "msg-" + def.Name, Weight: 30, Run: func(c *core.Ctx) {
